@@ -122,6 +122,9 @@ class SymFSApi:
             d.cur.put(0, items)
         d.sync()
 
+    def symlink(self, name: str, target: str) -> None:
+        self.fs.links[name] = target
+
     def exists(self, name: str) -> bool:
         return self.fs.file(name).exists
 
@@ -169,6 +172,9 @@ class ConcFSApi:
     def create_raw(self, name: str, content) -> None:
         with open(self.path(name), "wb") as fh:
             fh.write(bytes(content))
+
+    def symlink(self, name: str, target: str) -> None:
+        os.symlink(self.path(target), self.path(name))
 
     def exists(self, name: str) -> bool:
         return os.path.exists(self.path(name))
